@@ -459,8 +459,7 @@ Qed.
    start no goroutine; what it calls is the digest it creates itself *)
 Lemma newhash_is_stateless :
   Id62Gen.newhash_state_refs = [] /\
-  Id62Gen.newhash_calls = ["call:sha1.New"; "call:h.Reset"; "call:h.Write"; "call:h.Write"; "call:h.Sum"; "call:copy"]%string /\
-  Id62Gen.package_vars = ["Pattern"; "PatternString"]%string.
+  Id62Gen.newhash_calls = ["call:sha1.New"; "call:h.Reset"; "call:h.Write"; "call:h.Write"; "call:h.Sum"; "call:copy"]%string.
 Proof. vm_compute. repeat split. Qed.
 
 (* ---------- the compiler and the reader use the published pattern ---------- *)
